@@ -81,7 +81,7 @@ def _resid(rs, P, kinds, data):
         G = _as_group(P[rs["p"]], kinds[rs["p"]])
         if G.ndim > 1:
             G = G.unsqueeze(-2)
-        out = G.Act(data[0]) - data[1]
+        out = G.Act(data[0]) - data[1]          # data[0] has last dimension 3 (points) or 4 (homogeneous, w free)
         if torch.is_tensor(out) and type(out) is not torch.Tensor:
             out = out.tensor() if hasattr(out, "tensor") else out
     elif t == "poly":
@@ -130,8 +130,12 @@ def make_data(spec, seed, dtype):
         elif t == "act":
             ps = spec["params"][rs["p"]]
             lead = () if ps["n"] == 0 else (ps["n"],)
-            data.append(rng.randn(seed, ("d", j, "pts"), lead + (rs["npts"], 3), dtype))
-            data.append(rng.randn(seed, ("d", j, "tgt"), lead + (rs["npts"], 3), dtype))
+            pd_ = 4 if rs.get("homog") else 3
+            pts_ = rng.randn(seed, ("d", j, "pts"), lead + (rs["npts"], pd_), dtype)
+            if pd_ == 4:
+                pts_[..., 0, 3] = 0.0           # one direction (w = 0) among the homogeneous points
+            data.append(pts_)
+            data.append(rng.randn(seed, ("d", j, "tgt"), lead + (rs["npts"], pd_), dtype))
         elif t == "poly":
             ps = spec["params"][rs["p"]]
             k = ps["k"] if ps["kind"] == "euclid" else refmath.ADIM[ps["fam"]] * max(1, ps["n"])
@@ -179,7 +183,7 @@ def gen_spec(r, prop, allow_frozen=True):
         elif tpl == "act":
             kind = r.choice(["alg", "grp"])
             params.append(lie_param(kind, fam=r.choice(exact if kind == "alg" else fams)))
-            add_resid("act", p=len(params) - 1, npts=r.randint(2, 4))
+            add_resid("act", p=len(params) - 1, npts=r.randint(2, 4), homog=r.random() < 0.35)
         elif tpl == "poly":
             params.append({"kind": "euclid", "k": r.randint(1, 4), "n": 0})
             add_resid("poly", p=len(params) - 1, r=r.randint(2, 5), c=r.choice([0.0, 0.2, 1.0]), col=r.random() < 0.5)
